@@ -2944,7 +2944,10 @@ impl Compiler {
             );
             Some(self.push_offset_placeholder())
         } else {
-            None
+            // The function is unused, its body still gets compiled to check for errors.
+            // The body is jumped over, otherwise it would be run as part of the enclosing frame.
+            self.push_op_without_span(Jump, &[]);
+            Some(self.push_offset_placeholder())
         };
 
         let local_count = match u8::try_from(function.local_count) {
